@@ -66,6 +66,8 @@ def main():
             name = os.path.basename(d.rstrip("/"))
             if only and name not in only:
                 continue
+            if not os.path.exists(os.path.join(d, "meta.json")):
+                continue  # a seed whose confirmation is still running
             meta = json.load(open(os.path.join(d, "meta.json")))
             checks = ALL if checks_arg == "all" else sorted(set([meta["property"]] + meta.get("caught_by", [])))
             tasks.append((name, os.path.join(d, "patch.diff"), checks))
